@@ -232,8 +232,8 @@ def run(ctx):
     jobs = [j for j in jobs if ctx.only_sid.startswith('C08-%s-%s-b%d-c%d-%s-%s-d%d-i%d' % (
         j[0]['cls'], j[0]['curve'], j[0]['bias'], j[0]['count'], j[0]['partner'], j[0]['order'], j[0]['dups'], j[1]))]
   mpctx = mp.get_context('fork')
-  with mpctx.Pool(processes=15, maxtasksperchild=4) as pool:
-    results = list(pool.imap_unordered(run_cell, jobs, chunksize=1))
+  from pv import proc
+  results = list(proc.imap_unordered(run_cell, jobs, procs=15, chunk=2))
   recs = []
   for sid, rec, err in results:
     if err and err.startswith('skipped'):
